@@ -1836,6 +1836,33 @@ fn build_source(run: &Run, sc: &Scratch, cfg: &SrcCfg) -> Result<Source, String>
 				return Err(format!("source at the archive header differs from the reference ledger: {}", d));
 			}
 			twin = Some(s);
+			// every third plain source: a fork from the block below the archive header becomes the best chain for a while,
+			// long enough for ITS block at the archive height to be the archive header, and the node is asked for its
+			// segmenter then; the rest of the chain reorganises the fork away. What the node serves at the end is for the
+			// archive header of its chain, not for the one of the same height it served before.
+			if !cfg.big && !cfg.hostile_material && cfg.forged.is_none() && cfg.compact_at.is_none() && cfg.n_blocks >= a + 22 && a >= 2 {
+				let mut tip = w.hashes[(a - 1) as usize];
+				let mut first = None;
+				let mut ok = true;
+				for _ in 0..21 {
+					let gb = w.h.add_block(&tip, &[], "fork", vec![]);
+					if gb.verdict.is_err() || chain.process_block(gb.block.clone(), OPTS).is_err() {
+						ok = false;
+						break;
+					}
+					tip = gb.hash;
+					if first.is_none() {
+						first = Some(gb.hash);
+					}
+				}
+				if ok && chain.head().map(|t| t.last_block_h).ok() == Some(tip) {
+					if let Ok(ah) = chain.txhashset_archive_header() {
+						if Some(ah.hash()) == first && chain.segmenter().is_ok() {
+							run.count("b.sources_asked_for_a_segmenter_on_a_fork_that_is_then_reorganised_away", 1);
+						}
+					}
+				}
+			}
 		}
 		if cfg.hostile_material && a >= 12 && i == a - 2 {
 			drop(chain);
@@ -3676,6 +3703,7 @@ fn main() {
 		run.require("b.full_state_syncs_multi_segment", run.counter("b.full_state_syncs_multi_segment"), q(3, 20));
 		run.require("b.synced_to_tip", run.counter("b.synced_to_tip"), q(3, 12));
 		run.require("b.zip_syncs", run.counter("b.zip_syncs"), q(1, 4));
+		run.require("sources asked for a segmenter on a fork that is then reorganised away", run.counter("b.sources_asked_for_a_segmenter_on_a_fork_that_is_then_reorganised_away"), q(2, 4));
 		run.require("b.sources.compacted", run.counter("b.sources.compacted"), q(1, 2));
 		run.require("c.hostile_pieces_refused", run.counter("c.hostile_pieces_refused"), q(100, 600));
 		run.require("c.hostile_syncs_ending_right", run.counter("c.hostile_syncs_ending_right"), q(2, 10));
